@@ -53,6 +53,15 @@ fn crc56(message: &[u32]) -> u32 {
     data >> 8
 }
 
+/// A frame is consistent when its length agrees with its downlink format
+/// (DF 0-15: 56 bits, DF 16-31: 112 bits).
+pub(crate) fn length_matches_format(message: &[u32]) -> bool {
+    match range_value(message, 1, 5) {
+        Some(df) => (df < 16) == (message.len() == 14),
+        None => false,
+    }
+}
+
 /// Calculate the reminder of the message
 ///
 /// # Arguments
